@@ -71,6 +71,9 @@ impl JwkStorage for FKeys {
     self.0.delete(key_id).await
   }
   async fn exists(&self, key_id: &KeyId) -> KeyStorageResult<bool> {
+    if self.1.hit("exists") {
+      return Err(KeyStorageError::new(KeyStorageErrorKind::Unavailable));
+    }
     self.0.exists(key_id).await
   }
 }
@@ -150,9 +153,8 @@ pub fn faults(cex: &Value) -> Result<String, String> {
                 out.push(format!("[generate] schedule {sched:?} ({trace}): error returned but the document changed"));
               }
               // no orphaned key: every generate must have been followed by a successful delete
-              let gens = trace.matches("generate,").count() + if trace.ends_with("generate") { 1 } else { 0 };
-              let dels = trace.split(',').filter(|s| s.ends_with(":delete")).count();
-              if gens > dels && !trace.contains("generate!") {
+              // no orphaned key: whatever was generated has been deleted again (asked of the underlying store directly)
+              if block_on(storage.key_storage().0.count()) != 0 {
                 out.push(format!("[generate] schedule {sched:?} ({trace}): error returned but the generated key stays in the store"));
               }
             }
